@@ -1,1 +1,7 @@
-import PqVerif.Model.Comb
+-- root of the library: everything `lake build` (MANIFEST.setup_cmd) must compile
+import PqVerif.Driver.All
+import PqVerif.Props.C03
+import PqVerif.Props.C06
+import PqVerif.Props.C12
+import PqVerif.Props.C13
+import PqVerif.Props.C20
